@@ -1006,9 +1006,15 @@ func compileLambdaExpr(ctx *blockCtx, v *ast.LambdaExpr, sig *types.Signature) e
 		return err
 	}
 	results := makeLambdaResults(pkg, sig.Results())
+	comments, once := ctx.cb.BackupComments()
 	ctx.cb.NewClosure(params, results, false).BodyStart(pkg)
 	if len(v.Lhs) > 0 {
 		defNames(ctx, v.Lhs, ctx.cb.Scope())
+	}
+	if len(v.Rhs) > 0 {
+		// the body of `x => expr` is the statement `return expr`, written where expr is (not where the
+		// statement holding the lambda starts)
+		commentStmt(ctx, &ast.ReturnStmt{Return: v.Rhs[0].Pos(), Results: v.Rhs})
 	}
 	for _, v := range v.Rhs {
 		compileExpr(ctx, v)
@@ -1017,6 +1023,7 @@ func compileLambdaExpr(ctx *blockCtx, v *ast.LambdaExpr, sig *types.Signature) e
 		rec.Scope(v, ctx.cb.Scope())
 	}
 	ctx.cb.Return(len(v.Rhs)).End(v)
+	ctx.cb.SetComments(comments, once)
 	return nil
 }
 
